@@ -262,6 +262,9 @@ def sym_brew_pretrained(ctx, cfg):
     for k in range(folds):
         m = brewlib.StubModel(log, decision_function=dfm[k], override=True)
         m.is_trained, m.fold, m.uid = True, k + 1, k + 1
+        # direction of the model's best single FEATURE (lower-is-better for an e-value): it says nothing about
+        # the model's own output, which is always higher-is-better
+        m.desc = bool(core.SBool(z3.Bool("best_feature_desc_%d" % k)))
         models.append(m)
     cal = brewlib.CalRecorder()
     B.calibrate_scores = cal
@@ -274,7 +277,7 @@ def sym_brew_pretrained(ctx, cfg):
         split_rec.append([list(int(i) for i in a.items) for a in r])
         return r
     D.OnDiskPsmDataset._split = rec_split
-    inputs = dict(files=brewlib.dataset_inputs([s]), df=dfm, chunk_prediction=B.CHUNK_SIZE_ROWS_PREDICTION,
+    inputs = dict(files=brewlib.dataset_inputs([s]), df=dfm, feature_descs=[bool(m.desc) for m in models], chunk_prediction=B.CHUNK_SIZE_ROWS_PREDICTION,
                   hashes=[[brewlib.s_crc32(core.SKey((SNum(s["scan"][i]), SNum(s["mass"][i])))) for i in range(N)]])
     try:
         _, _, scores, _ = B.brew([ds], model=models, test_fdr=SNum(z3.Real("test_fdr")), folds=folds, max_workers=1, rng=gen)
@@ -290,6 +293,8 @@ def sym_brew_pretrained(ctx, cfg):
     props = [("score_count", z3.BoolVal(len(sc) == N))]
     want_calls = [k for k in range(folds) if dfm[k] and fl[k]]
     props.append(("one_calibration_per_nonempty_fold_with_a_decision_function: %d calls for folds %s" % (len(cal.calls), want_calls), z3.BoolVal(len(cal.calls) == len(want_calls))))
+    props.append(("model_output_is_calibrated_as_higher_is_better_whatever_the_best_feature_direction: %s" % getattr(cal, "descs", []),
+                  z3.BoolVal(all(d is True for d in getattr(cal, "descs", [])))))
     for r in range(N):
         k = foldof[r]
         raw = z3.Real("score_m%s_f%s_r%d" % (k + 1, 0, r))
@@ -334,12 +339,17 @@ def real_brew_pretrained(cfg, inp):
         for k in range(folds):
             m = c02._RealModel(log, dfm[k])
             m.is_trained, m.fold, m.override = True, k + 1, True
+            m.desc = bool((inp.get("feature_descs") or [True] * folds)[k])
             models.append(m)
         old = (B.CHUNK_SIZE_ROWS_PREDICTION, B.calibrate_scores)
         B.CHUNK_SIZE_ROWS_PREDICTION = int(inp["chunk_prediction"])
 
+        bad_desc = []
+
         def rec_cal(scores, targets, eval_fdr, desc=True):
             calls.append(([float(x) for x in scores], [bool(x) for x in targets]))
+            if desc is not True:
+                bad_desc.append(desc)
             if len(scores) != len(targets):
                 raise ValueError("'scores' and 'target' must be the same length")  # what the real kernel answers
             return np.asarray(scores, dtype=float) + 0.5  # marks a calibrated value
@@ -351,6 +361,8 @@ def real_brew_pretrained(cfg, inp):
             return dict(exception=repr(ex), violation="brew with pretrained models (decision_function per fold: %s) raised %r after calibration calls %s" % (dfm, ex, calls))
         finally:
             B.CHUNK_SIZE_ROWS_PREDICTION, B.calibrate_scores = old
+    if bad_desc:
+        return dict(violation="the fold models' outputs (higher is better) are calibrated with desc=%s: the direction of the models' best single feature %s was handed to the calibration" % (bad_desc, inp.get("feature_descs")))
     pred = {}
     for fold, rr in log.get("predicts", []):
         for (f, r) in rr:
